@@ -128,6 +128,8 @@ def run(ctx, res):
         except Unmodelled as ex:
             res.unmodelled(d, str(ex))
             continue
+        from ..core import arithmetic
+        arithmetic(res, I, d)
         from ..analysis import opaque_parse_hook
         I.call_hook = opaque_parse_hook(F, {e[0]: e[1] for e in entries if e[2] != "inherent" and e[1] != adt})
         view = input_slice()
